@@ -31,10 +31,10 @@ def run(ctx):
         rs = ctx.rule("R6", "portfolio scenarios: verdict independent of arrival order, failures and time-outs; bounded wait; winner bookkeeping; no stale answers")
         res = sd.portfolio_results(repo, ctx.tier)
         ctx.analysed["scenarios"] = len(res)
-        for n, eoe, beh, order, gaps, kind, detail in res:
-            name = "%d members %s, arrival order %s, time-outs %s%s" % (n, "".join(beh), list(order), list(gaps),
-                                                                       ", exit_on_exception" if eoe else "")
-            key = "%s|%s|%s" % ("".join(beh), "eoe" if eoe else "std", kind)
+        for n, eoe, tag, beh, order, gaps, kind, detail in res:
+            name = "%d members %s, arrival order %s, time-outs %s%s%s" % (n, "".join(beh), list(order), list(gaps),
+                                                                         ", exit_on_exception" if eoe else "", tag)
+            key = "%s|%s%s|%s" % ("".join(beh), "eoe" if eoe else "std", tag.replace(", member options ", "|opts "), kind)
             if kind == "ok":
                 rs.ok({"scenario": name})
             elif kind == "unsupported":
